@@ -109,7 +109,7 @@ InterestOf(s, l, t) ==
           Max2((n * p) \div (d * C.scale[l.sym] * C.pm), c.minInt)
 InterestConvertible(s, l) == Cond(l.sym).isym = l.sym \/ (Cond(l.sym).isym = Q /\ HasPrice(s, l.sym))
 
-\* CheckMarginLevel on candidate maps (nb, nbor).  Result: "ok" | "nebal" | "noprice"
+\* CheckMarginLevel on candidate maps (nb, nbor).  Result: "ok" | "nebal" | "noprice" | "zero"
 MarginCheck(s, nb, nbor) ==
   LET borrowedSyms == {x \in Syms : nbor[x] # 0}
       open == OpenLoanIdx(s)
@@ -132,8 +132,11 @@ MarginCheck(s, nb, nbor) ==
                               SumEq(S) == IF S = {} THEN 0 ELSE LET x == CHOOSE x \in S : TRUE IN
                                              ValQ(s, x, nb[x] - nbor[x]) + SumEq(S \ {x})
                               equity == SumEq(posSyms) \* over VDen
-                          \* reject iff level < 100, i.e. equity < used margin + interest
-                          IN IF equity * C.reqD < used + interest * C.reqD THEN "nebal" ELSE "ok"
+                          \* level = equity / (used margin + interest); the rule rejects 0 < level < 100.
+                          \* level = 0 with used margin > 0 (no equity left) is reported as "zero": the update
+                          \* rule lets it pass, MarginLoans.create_loan refuses it (_check_equity_left)
+                          IN IF equity = 0 THEN "zero"
+                             ELSE IF equity * C.reqD < used + interest * C.reqD THEN "nebal" ELSE "ok"
 
 \* AccountBalances.update: all-or-nothing under NonZero, ValidHold and (margin lending) CheckMarginLevel.
 \* The margin rule is evaluated only when balances or borrowed change (a pure hold update cannot change the level).
@@ -143,7 +146,7 @@ Update(s, db, dh, dbor) ==
   ELSE IF \E x \in Syms : nh[x] < 0 \/ nbor[x] < 0 THEN [ok |-> FALSE, err |-> "error", s |-> s]
   ELSE IF \E x \in Syms : nh[x] > nb[x] THEN [ok |-> FALSE, err |-> "nebal", s |-> s]
   ELSE LET m == IF C.lendMode = "margin" /\ (db # D0 \/ dbor # D0) THEN MarginCheck(s, nb, nbor) ELSE "ok" IN
-       IF m # "ok" THEN [ok |-> FALSE, err |-> m, s |-> s]
+       IF m \notin {"ok", "zero"} THEN [ok |-> FALSE, err |-> m, s |-> s]
        ELSE [ok |-> TRUE, err |-> "", s |-> [s EXCEPT !.bal = nb, !.hold = nh, !.bor = nbor]]
 
 \* LoanManager.create_loan
@@ -152,8 +155,11 @@ CreateLoanI(s, sym, amount) ==
   ELSE IF s.clock = 0 THEN [ok |-> FALSE, err |-> "error", s |-> s]          \* dispatcher.now() not available
   ELSE IF C.lendMode = "none" THEN [ok |-> FALSE, err |-> "error", s |-> s]  \* NoLoans
   ELSE IF ~Cond(sym).has THEN [ok |-> FALSE, err |-> "error", s |-> s]
-  ELSE LET u == Update(s, Only(sym, amount), D0, Only(sym, amount)) IN
-       IF ~u.ok THEN u
+  ELSE LET pre == MarginCheck(s, Plus(s.bal, Only(sym, amount)), Plus(s.bor, Only(sym, amount)))   \* _check_equity_left
+           u   == Update(s, Only(sym, amount), D0, Only(sym, amount)) IN
+       IF pre = "noprice" THEN [ok |-> FALSE, err |-> "noprice", s |-> s]
+       ELSE IF pre = "zero" THEN [ok |-> FALSE, err |-> "nebal", s |-> s]
+       ELSE IF ~u.ok THEN u
        ELSE [ok |-> TRUE, err |-> "",
              s |-> [u.s EXCEPT !.loans = Append(@, [sym |-> sym, amount |-> amount, at |-> s.clock, open |-> TRUE,
                                                     paid |-> D0, cause |-> "none"])]]
